@@ -58,7 +58,7 @@ theorem step_of_ok (cfg : Cfg) (s : St) (sol : Sol) (b a : Links) (due : List Ct
     step cfg s =
       { simTime := nextGrid cfg.hyd (preResult cfg s).2, prevTime := (preResult cfg s).2, first := false, links := a,
         prevHeads := acceptedHeads cfg s, heads := acceptedHeads cfg s, demand := some sol.demand, lasts := l,
-        rows := ⟨(preResult cfg s).2, acceptedHeads cfg s, sol.demand, a, b, due⟩ :: s.rows, error := false } := by
+        ruleIter := (preResultR cfg s).2.2, rows := ⟨(preResult cfg s).2, acceptedHeads cfg s, sol.demand, a, b, due⟩ :: s.rows, error := false } := by
   unfold step; simp only [h]
 
 /-- rows of a step: the old ones (error: nothing else changes but the flag), or one new quiet row in front -/
